@@ -31,6 +31,9 @@ L = 'linear_layer.Linear'
 
 
 def run(prog, res):
+  # the constraint semantics the consequences of C20 rest on (linear_lib 28-111)
+  from . import C06
+  C06._project_steps(prog, res)
   build = prog.function(L + '.build')
   call = prog.function(L + '.call')
   res.analysed(build, call)
